@@ -23,6 +23,9 @@ func stateCommentStarted(s *Scanner, c byte) *jerr.JApiError {
 		s.step = stateCommentDouble
 		return nil
 	default:
+		// It is a one-line comment: a '#' met further in its text is a part of
+		// that text, not the beginning of '###'.
+		s.step = stateSingleComment
 		return stateSingleComment(s, c)
 	}
 }
@@ -33,6 +36,7 @@ func stateCommentDouble(s *Scanner, c byte) *jerr.JApiError {
 		s.step = stateCommentBlock
 		return nil
 	default:
+		s.step = stateSingleComment
 		return stateSingleComment(s, c)
 	}
 }
